@@ -29,6 +29,25 @@ def main(out):
       shape = tuple(int(x) for x in obj._shape_)
       st = obj._wp_scalar_type_
       res["vectypes"][name] = {"shape": shape, "dtype": "f" if "float" in st.__name__ else "i"}
+  # vector / matrix types defined in other modules (class vec8f(wp.types.vector(length=8, ...)) in
+  # collision_primitive_core, ...): shape and scalar kind only
+  import importlib
+  import os
+  import pkgutil
+
+  import mujoco_warp._src as S
+
+  for mi in pkgutil.iter_modules([os.path.dirname(S.__file__)]):
+    if mi.name.endswith("_test") or mi.name in ("types",) or "test" in mi.name or mi.name.startswith("render"):
+      continue
+    try:
+      M = importlib.import_module("mujoco_warp._src." + mi.name)
+    except Exception:
+      continue
+    for name, obj in vars(M).items():
+      if isinstance(obj, type) and hasattr(obj, "_shape_") and hasattr(obj, "_wp_scalar_type_") and name not in res["vectypes"] and getattr(obj, "__module__", "").startswith("mujoco_warp"):
+        shape = tuple(int(x) for x in obj._shape_)
+        res["vectypes"][name] = {"shape": shape, "dtype": "f" if "float" in obj._wp_scalar_type_.__name__ else "i"}
   # BlockDim defaults (dataclass of ints) are launch parameters, not semantics: skipped.
   import mujoco
 
